@@ -70,7 +70,8 @@ def _gen_cases(tier, seed):
                         yield C(w="algebra", shape=list(shp), R=R, wk=wk, zerocol=zc, R2=int(rng.integers(1, maxR + 1)))
                         yield C(w="fixsigns_alone", shape=list(shp), R=R, wk=wk, zerocol=zc)
                         yield C(w="update", shape=list(shp), R=R, wk=wk, zerocol=zc,
-                                modes=sorted(int(x) for x in rng.permutation(N)[: int(rng.integers(1, N + 1))]), weights_too=bool(rng.integers(0, 2)))
+                                modes=sorted(int(x) for x in rng.permutation(N)[: int(rng.integers(1, N + 1))]), weights_too=bool(rng.integers(0, 2)),
+                                dform=["vector", "vector", "integers", "column", "row"][int(rng.integers(0, 5))])
                     for perm in itertools.permutations(range(R)):
                         yield C(w="arrange", shape=list(shp), R=R, wk="mixed", zerocol=False, weight_factor=None, perm=list(perm))
                         if R >= 2:
@@ -91,7 +92,8 @@ def _gen_cases(tier, seed):
                     # fixsigns against a reference: every per-mode sign pattern for every component
                     for comp in range(R):
                         for signs in itertools.product((1, -1), repeat=N):
-                            yield C(w="fixsigns_ref", shape=list(shp), R=R, comp=comp, signs=list(signs), wk="positive", zerocol=False)
+                            yield C(w="fixsigns_ref", shape=list(shp), R=R, comp=comp, signs=list(signs), wk="positive", zerocol=False,
+                                    refcomp=["same", "same", "more", "fewer"][int(rng.integers(0, 4))])
 
 
 PRE = [None, "normalize-all", "normalize-mode", "redistribute", "arrange", "c-order-factors", None, "update-all", "arrange-negate", "normalize-scale-negative",
@@ -319,14 +321,29 @@ def run_case(case, ctx):
         ctx.feat(weights_too=case["weights_too"])
         newF = {m: gen.normals(rng, (shape[m], R)) for m in modes}
         neww = np.round(rng.uniform(0.5, 2, R), 4)
+        dform = case.get("dform", "vector")
+        ctx.feat(dform=dform)
+        if dform == "integers":
+            newF = {m: np.round(newF[m] * 3.0) for m in modes}
+            neww = np.round(neww * 3.0) + 1.0
         parts = ([neww] if case["weights_too"] else []) + [newF[m].reshape(-1, order="F") for m in modes]
         data = np.concatenate(parts)
+        # the data vector as callers hold it: integer-typed, a column, a row
+        data = data.astype(np.int64) if dform == "integers" else data.reshape(-1, 1) if dform == "column" else data.reshape(1, -1) if dform == "row" else data
         marg = ([-1] if case["weights_too"] else []) + list(modes)
         F0 = [f.copy() for f in K.factor_matrices]
         W0 = K.weights.copy()
         ctx.must("ktensor.update", K.update, np.array(marg) if len(marg) > 1 else marg[0], data.copy())
         ok = all(same(K.factor_matrices[m], newF[m] if m in newF else F0[m]) for m in range(N)) and same(K.weights, neww if case["weights_too"] else W0)
         ctx.check(ok, "ktensor.update", "WRONG", "update did not replace exactly the listed modes (first index fastest) / weights")
+        ctx.check(np.asarray(K.weights).ndim == 1 and np.asarray(K.weights).dtype.kind == "f" and all(np.asarray(f).dtype.kind == "f" and np.asarray(f).ndim == 2 for f in K.factor_matrices),
+                  "ktensor.update", "WRONG-FORM", f"after update: weights {np.asarray(K.weights).dtype}{np.asarray(K.weights).shape}, factors {[str(np.asarray(f).dtype) for f in K.factor_matrices]}")
+        # the updated object is a Kruskal tensor like any other: normalising it does not change the array it denotes
+        if ok:
+            before_n = denote(K)
+            ctx.must("ktensor.normalize", K.normalize)
+            ctx.check(close(denote(K), before_n, scale=max(1.0, float(np.max(np.abs(before_n)))), tol=TOL), "ktensor.normalize", "CHANGED-TENSOR",
+                      "normalize after update changed the tensor", after_update=True)
     elif w == "extract":
         idx = case["idx"]
         ctx.feat(form=case["form"])
@@ -399,6 +416,15 @@ def run_case(case, ctx):
         O = K.copy()
         for n, s in enumerate(signs):
             O.factor_matrices[n][:, comp] *= s
+        rc = case.get("refcomp", "same")
+        if rc == "more":
+            # a reference with a surplus component: the common ones are matched by position
+            O = ttb.ktensor([np.hstack([f, gen.normals(rng, (f.shape[0], 1))]) for f in O.factor_matrices], np.concatenate([O.weights, [0.7]]))
+        elif rc == "fewer" and R >= 2 and comp < R - 1:
+            O = ttb.ktensor([f[:, : R - 1].copy() for f in O.factor_matrices], O.weights[: R - 1].copy())
+        else:
+            rc = "same"
+        ctx.feat(refcomp=rc)
         Obefore = denote(O)
         ctx.must("ktensor.fixsigns", K.fixsigns, O)
         unchanged("ktensor.fixsigns", None, ref=True)
